@@ -225,7 +225,8 @@ def execute_and_judge(binary, scripts, k0, name, nproc=None, lockstep=True):
     for v in viols:
         v["script"] = byid.get(v["tr"])
     for dv in divs[:5]:
-        log("SPEC-DIVERGENCE (informational) trace %s line %d event %s: %s differ between the ideal model and the code" % (dv["tr"], dv["i"], dv["t"], dv["what"]))
+        log("SPEC-DIVERGENCE (informational) trace %s line %d event %s: %s differ between the ideal model and the code\n    model: %s\n    code:  %s" % (
+            dv["tr"], dv["i"], dv["t"], dv["what"], json.dumps(dv.get("model"))[:600], json.dumps(dv.get("code"))[:600]))
     if ierr:
         log("note: lock-step validation did not complete: %s" % ierr)
     return viols, {"events": nlines, "traces": ntraces, "crashes": crashes, "lockstep_compared": compared, "lockstep_divergences": len(divs)}
